@@ -1,64 +1,12 @@
-"""Registry: property id -> Property (Lean obligations, families, fact expectations, trusted base)."""
-from .runner import Property
-from .fam_quorum import QuorumFam
-from .fam_idset import IdsetFam
-
-COMMON_TRUST = [
-    "tie model<->code: differential correspondence hsdriver (real Go, built from /repo working tree with -overlay) vs hsmodel (Lean model compiled) on identical scripts",
-    "tools/gofacts translator + fact extractor (go/ast)",
-    "Go toolchain, go build -overlay",
-]
-
-QUORUM_SITES = [
-    {"func": "core/replica.go:RuntimeConfig.QuorumSize", "contains": ["ReplicaCount", "QuorumSize"]},
-    {"func": "security/cert/auth.go:Authority.VerifyQuorumCert", "contains": ["QuorumSize"]},
-    {"func": "security/cert/auth.go:Authority.VerifyTimeoutCert", "contains": ["QuorumSize"]},
-    {"func": "security/cert/auth.go:Authority.VerifyAggregateQC", "contains": ["QuorumSize"]},
-    {"func": "protocol/synchronizer/timeout_collector.go:timeoutCollector.add", "contains": ["QuorumSize"]},
-    {"func": "protocol/votingmachine/votingmachine.go:VotingMachine.verifyCert", "contains": ["QuorumSize"]},
-    {"func": "protocol/comm/kauri.go:Kauri.mergeContribution", "contains": ["QuorumSize"]},
-]
+"""Registry: property id -> Property. Every vlib/prop_Cxx.py defines PROP (runner.Property) and META
+(dict with text / note / technique for MANIFEST.json); they are discovered automatically."""
+import importlib, os, pkgutil
 
 PROPS = {}
-
-
-def reg(p):
-    PROPS[p.pid] = p
-
-
-reg(Property(
-    "C20", ["HsVerif.Props.C20"], [QuorumFam()],
-    facts=QUORUM_SITES,
-    trusted=COMMON_TRUST + ["float64 arithmetic of math.Ceil for n+f+1 < 2^53 (translated as (E+1)/2; boundary inputs exercised)"],
-    assumptions=["n = len(replicas) is a natural number; Go int does not overflow (n < 2^62)"],
-))
-
-reg(Property(
-    "C19", ["HsVerif.Props.C19"], [IdsetFam()],
-    facts=[
-        {"func": "security/crypto/bitfield.go:Bitfield.Add", "order": ["index", "extend", "set"]},
-        {"func": "security/crypto/bitfield.go:Bitfield.Contains", "order": ["index", "isSet"]},
-        {"func": "security/crypto/bitfield.go:BitfieldFromBytes", "contains": ["ForEach"]},
-        {"func": "security/crypto/ecdsa.go:ECDSA.Combine", "contains": ["Contains"]},
-        {"func": "security/crypto/eddsa.go:EDDSA.Combine", "contains": ["Contains"]},
-        {"func": "security/crypto/bls12.go:bls12Base.Combine", "contains": ["Contains", "Add"]},
-    ],
-    trusted=COMMON_TRUST + ["real ECDSA/EdDSA/BLS12-381 Sign used by the harness to obtain signatures whose participant sets are then compared"],
-    assumptions=["ids >= 1 (id 0 panics in Go on a negative shift; outside the property, relevant to C10)",
-                 "ids fit Go int; bytes are modelled as naturals"],
-))
-
-# ---- manifest texts --------------------------------------------------------------------------
-META = {
-    "C20": {
-        "text": "Proof: intersection (2q-n >= f+1), availability (q <= n-f), minimality of q and maximality of f are Lean theorems for every n >= 1 (omega; no bound). The Go formula is regenerated into Lean by the gofacts translator on every run and bridged to the model by lemmas re-checked by lake build; additionally hotstuff.QuorumSize/NumFaulty/RuntimeConfig.QuorumSize are compared with the model and with an executable oracle of the property for every n in 1..1,000,000 and at the 2^24/2^31/2^53 float boundaries. 'Every component uses this threshold' is a syntactic fact (call to config.QuorumSize at each certificate site) re-extracted on every run.",
-        "note": "Trusted: Lean kernel, propext/Quot.sound, gofacts translator (float Ceil idiom translated as (E+1)/2, exact below 2^53), Go int overflow not modelled.",
-        "technique": "Lean 4 theorem (omega) + Go->Lean translation with bridging lemmas + exhaustive differential correspondence",
-    },
-}
-META["C19"] = {
-    "text": "Proof: for the bit-field model (Add/Contains/ForEach/RangeWhile/Len/BitfieldFromBytes/Bytes as coded) Lean theorems show, for every insertion sequence over ids >= 1 without upper bound and every byte string, that membership, cached size and ascending duplicate-free iteration equal the ideal set, that reconstruction keeps the bytes and yields exactly the set bits with len = popcount, and that a reachable set rebuilt from its bytes is the original. For signer lists, Combine (ECDSA/EdDSA list version and BLS bit-field version) succeeds exactly on >= 2 pairwise disjoint inputs and its result has no repeated signer, so Len counts distinct signers. index/id are regenerated from Go and bridged. The correspondence runs crypto.Bitfield and real Sign/Combine of all three schemes against the model and an ideal-set oracle: all byte strings <= 2 bytes, all insertion sequences <= 3 over a byte-boundary alphabet, random sequences over ids 1..300, all combinations of <= 3 single signatures plus nested aggregates.",
-    "note": "Trusted: Lean kernel, propext/Quot.sound/Classical.choice, gofacts, correspondence harness. Wire-decoded signer lists are not produced by Sign/Combine and are covered by C02, not here.",
-    "technique": "Lean 4 theorems (refinement of bit-field to ideal set; Nodup of combined signer lists) + translation of index/id + differential correspondence with ideal-set oracle",
-}
+META = {}
 NOT_YET = {}
+for m in sorted(pkgutil.iter_modules([os.path.dirname(__file__)]), key=lambda x: x.name):
+    if m.name.startswith("prop_C"):
+        mod = importlib.import_module("vlib." + m.name)
+        PROPS[mod.PROP.pid] = mod.PROP
+        META[mod.PROP.pid] = mod.META
